@@ -192,6 +192,11 @@ def run_once(scn, shutdown_at, collect_instants=False):
             m.remote = y.remote(z)
             yz.append(log.start(y, m, tag="yz"))
 
+        # shutdown_at: virtual time, or [virtual time, k] = k further event-loop iterations into that instant
+        # (between the delivery of a datagram and the task steps it wakes up)
+        micro = 0
+        if isinstance(shutdown_at, (list, tuple)):
+            shutdown_at, micro = float(shutdown_at[0]), int(shutdown_at[1])
         T = shutdown_at if shutdown_at is not None else 12.0
         net.at(max(0.0, T - 0.5), yreq)
         net.at(T + 0.2, yreq)
@@ -200,7 +205,21 @@ def run_once(scn, shutdown_at, collect_instants=False):
             net.run_until(12.0)
             instants = sorted({round(w["t"], 6) for w in net.wire if w["src"] in (X, P) or w["dst"] in (X, P)} | {round(e[0], 6) for e in net.events if len(e) > 2 and e[2] == "X"})
             return [], instants, labels
-        net.run_until(T)
+        def one_iteration():
+            net.loop.call_soon(net.loop.stop)
+            net.loop.run_forever()
+
+        if micro >= 0:
+            net.run_until(T)
+            for _ in range(micro):
+                one_iteration()
+            if micro:
+                labels.add("mid-instant")
+        else:
+            # the events of instant T (a datagram arriving, a timer firing) happen -micro-1 loop iterations *into*
+            # the shutdown: stop just before T, start shutting down, and let T come while that is under way
+            net.run_until(max(0.0, T - 0.0005))
+            labels.add("event-during-shutdown")
         pending_before = [it for it in log.items if it["ep"] is x and it.get("fut") is not None and not it["fut"].done()]
         running_handlers = len([e for e in net.events if e[1] == "handler-start" and e[2] == "X"]) - len([e for e in net.events if e[1] in ("handler-end", "handler-cancelled") and e[2] == "X"])
         obs_active = [o for o in obs_log if not any(ev[1] == "err" for ev in o[2])]
@@ -225,7 +244,14 @@ def run_once(scn, shutdown_at, collect_instants=False):
 
         t0 = net.loop.time()
         try:
-            net.shutdown_context(x)
+            if micro >= 0:
+                net.shutdown_context(x)
+            else:
+                sd_task = net.loop.create_task(x.ctx.shutdown())
+                for _ in range(-micro - 1):
+                    one_iteration()
+                net.loop._vtime = max(net.loop._vtime, T)
+                net.loop.run_until_complete(sd_task)
         except Exception as e:
             vio.append(V("C18/shutdown-raises/" + type(e).__name__, "shutdown at %.6f raised %r" % (T, e)))
         net._contexts.remove(x)
@@ -323,7 +349,13 @@ def instants_for(scn, cap):
     if len(pts) > cap:
         step = len(pts) / cap
         pts = [pts[int(i * step)] for i in range(cap)]
-    return pts
+    # ... and inside the instants at which something happens: after 1..6 further loop iterations, i.e. between
+    # the arrival of a datagram and the steps of the tasks it wakes (a request "between two messages")
+    mid = [[t, k] for t in srt if t > 0 for k in (-1, 1, -2, 2, -3, 3, 4, 5, 6)]
+    if len(mid) > cap:
+        step = len(mid) / cap
+        mid = [mid[int(i * step)] for i in range(cap)]
+    return pts + mid
 
 
 def run_case(case, want_trace=False):
